@@ -8,15 +8,16 @@ SPEC = {
             {"args": ["-mode", "mem"], "corpus": "mem"},
             {"args": ["-mode", "red"], "corpus": "red"},
             {"args": ["-mode", "conc"], "corpus": "conc"},
+            {"args": ["-mode", "repo"], "corpus": "repo"},
         ],
     },
-    "skip_model_prefix": ["conc", "hammer", "sweep", "burst"],
+    "skip_model_prefix": ["conc", "hammer", "sweep", "burst", "repo"],
     "rule": ("case = one history of storage calls executed on the real backend: (mem) sequential histories on memory.Storage with "
              "real sleeps (ttl in {0, 40 ms, 1 h, negative, 25 h}, sleep 60 ms): exhaustive matrix setup x (sleep|no sleep) x every call "
              "kind x probes, plus random histories over <= 3 keys; (red) the same call grammar on redis.Storage over miniredis "
              "(FastForward) restricted to the repositories' key shapes; (sched) every interleaving of 2-3 callers x 2 calls forced by a "
              "gated double; (conc) free-running callers released by one flag, hundreds of rounds per case, one line per distinct "
-             "outcome, checked for linearizability by the Lean spec; (hammer) reader/writer stress in a child process; (sweep) the real sweep vs concurrent re-writes of expired keys; (alias) exhaustive setup x sharing x mutation x probe plus random histories with held answers; (burst) exhaustive 2 callers x 1 call (11 writers incl. SetNX/CAS/Incr/Append/SetHash/CleanupExpired x writers+readers) on one key that is absent / live / permanent / expired-unswept of every value kind, plus 3-caller and random bursts. "
+             "outcome, checked for linearizability by the Lean spec; (hammer) reader/writer stress in a child process; (sweep) the real sweep vs concurrent re-writes of expired keys; (repo) real lock / cleanup manager / generic repository / typed adapters over both backends: ttl-pair matrices + random scenarios; (alias) exhaustive setup x sharing x mutation x probe plus random histories with held answers; (burst) exhaustive 2 callers x 1 call (11 writers incl. SetNX/CAS/Incr/Append/SetHash/CleanupExpired x writers+readers) on one key that is absent / live / permanent / expired-unswept of every value kind, plus 3-caller and random bursts. "
              "non-trivial = more than one call; distinct = distinct case line"),
     "trusted_base": [
         "Lean 4.33 kernel; axioms propext, Classical.choice, Quot.sound only (audited per theorem on every run)",
@@ -33,6 +34,8 @@ SPEC = {
         "sweep cases: real CleanupExpired (loop) / StartCleanup ticker against concurrent re-writes of thousands of expired keys; per key the history set-sleep-rewrite-reads is sequential (no Delete issued), the reported key history is judged by holdsSeq",
         "burst cases: sequential prefix (real sleeps: 2 ms lifetimes + 6 ms sleep leave expired-but-unswept entries; live keys use 1 h / permanent), then free-running callers on 16 independent stores x 2 rounds (thorough 12), then a sequential probe; judged by holdsBurst = C13_linearizable_from's predicate (order search from the prefix's end state + probe); no `get` inside a burst (known finding get-returns-live-hash)",
         "alias cases: the caller keeps GetList answers without copying (registers), looks at them again and stores them again under other keys; judged by holdsAlias (value semantics); the reference-semantics model (Model/C13Alias.lean: slices, backing arrays, in-place append into spare capacity, runtime-chosen capacities as parameters) is proved to refine it for every history (C13_alias_refines); callers never write through a held slice themselves; Set(k, []any) by a caller (not via SetList) still stores by reference and is outside the driven shapes",
+        "repo cases: the real StorageBasedLock / CleanupManager / GenericRepositoryImpl / TypedFullStorageAdapter run the same scenario over memory and over Redis through a recording store; component answers must coincide (holdsSame) and every recorded storage call is judged as an ordinary mem/red history; lifetimes 0 | short | sub-second (Redis 0.5 s) | long",
+        "start/stop (periodic sweep lifecycle) and cl (which of two Redis clients) answer nothing and are invisible to the reference; watch answers like get",
         "linearizability theorem: one burst at a fixed clock reading from the empty store; schedules that let every caller finish (`completes`)",
         "mem timing: a burst of calls between two sleeps must finish within 25 ms (measured; the case is rerun otherwise); model clock: 1 ns per call",
         "Redis half restricted to the operations and shapes the repositories use: kv keys hold non-empty strings; list/hash members are strings; lists are built by append/SetList(ttl 0|1h); lifetimes are 0 or whole seconds; answers compared through repoView (missing list = empty list, missing hash = empty hash, SetExpiration on a missing key = ok); Exists/GetExpiration only on kv keys",
